@@ -210,6 +210,8 @@ let () =
        let line = input_line ic in
        let n = String.length line in
        if n = 0 then ()
+       else if line.[0] = '#' then ()   (* comments appended to replay files *)
+       else if n >= 6 && String.sub line 0 6 = "flags " then ()
        else if n >= 5 && String.sub line 0 5 = "case " then begin
          (match split_ws line with
          | [ _; id; suite ] ->
